@@ -85,10 +85,11 @@ def render_main(case: dict, pkg: str) -> str:
         elif t == "from":
             w = k["what"]
             tail = "" if k["as"] == "-" else f" as {k['as']}"
+            dots = "." * max(k.get("lvl", 1), 1)
             if w in ("OK", "og", "ov"):
-                lines.append(f"{ind}from .other import {w}{tail}")
+                lines.append(f"{ind}from {dots}other import {w}{tail}")
             elif w == "other":
-                lines.append(f"{ind}from . import other{tail}")
+                lines.append(f"{ind}from {dots} import other{tail}")
             elif w == "ext":
                 lines.append(f"{ind}from io import StringIO{tail}")
             elif w == "cp":
@@ -106,19 +107,28 @@ def render_main(case: dict, pkg: str) -> str:
     return "\n".join(lines) + "\n"
 
 
+# where the main module lives: (file relative to the package directory, dotted suffix)
+MAIN_FILES = {
+    "init": ("__init__.py", ""),
+    "sub": ("sub.py", ".sub"),
+    "mid": ("mid/__init__.py", ".mid"),
+    "deep": ("mid/deep/__init__.py", ".mid.deep"),
+    "leaf": ("mid/deep/leaf.py", ".mid.deep.leaf"),
+}
+
+
 def write_package(root: str, pkg: str, case: dict) -> str:
-    """Writes the package; returns the dotted name of the main module."""
+    """Writes pkg/{__init__, other[, sub]}.py, pkg/mid/{__init__, other}.py, pkg/mid/deep/{__init__, other[, leaf]}.py
+    (the two lower levels only when the main module lives there); returns the dotted name of the main module."""
     d = os.path.join(root, pkg)
-    os.makedirs(d, exist_ok=True)
-    src = render_main(case, pkg)
-    with open(os.path.join(d, "other.py"), "w") as fh:
-        fh.write(OTHER_PY)
-    if case["main"] == "init":
-        with open(os.path.join(d, "__init__.py"), "w") as fh:
-            fh.write(src)
-        return pkg
-    with open(os.path.join(d, "__init__.py"), "w") as fh:
-        fh.write("")
-    with open(os.path.join(d, "sub.py"), "w") as fh:
-        fh.write(src)
-    return pkg + ".sub"
+    main_file, suffix = MAIN_FILES[case["main"]]
+    files = {"__init__.py": "", "other.py": OTHER_PY}
+    if case["main"] in ("mid", "deep", "leaf"):
+        files.update({"mid/__init__.py": "", "mid/other.py": OTHER_PY, "mid/deep/__init__.py": "", "mid/deep/other.py": OTHER_PY})
+    files[main_file] = render_main(case, pkg)
+    for rel, text in files.items():
+        path = os.path.join(d, rel)
+        os.makedirs(os.path.dirname(path), exist_ok=True)
+        with open(path, "w") as fh:
+            fh.write(text)
+    return pkg + suffix
